@@ -99,3 +99,62 @@ Proof.
   destruct (d_find (py_dfs s i) d) as [g|] eqn:F; [|reflexivity].
   pose proof (catalogued_linked _ _ _ _ IA F) as L. rewrite (dk_same _ _ (ib_df _ IB g L) n). reflexivity.
 Qed.
+
+(* ------------------------------------------------------------------ (5) at observation level: the final reopen verdict *)
+Lemma same_map_In (a b:alist) n x :
+  same_map a b -> NoDup (d_keys a) -> In (n, x) a -> In (n, x) b.
+Proof. intros SM ND I. apply d_find_In. rewrite <- (SM n). apply In_d_find; assumption. Qed.
+
+Lemma fld_eqb_refl e : fld_eqb e e = true.
+Proof. destruct e as [[n t] dat]. cbn. rewrite name_eqb_refl, Z.eqb_refl. apply name_eqb_refl. Qed.
+
+Lemma incl_by_map {A B} (eqb:B -> B -> bool) (F:A -> B) (a b:list A) :
+  (forall y, eqb y y = true) -> incl a b -> incl_by eqb (map F a) (map F b) = true.
+Proof.
+  intros R H. unfold incl_by. apply forallb_forall. intros y Iy. apply in_map_iff in Iy. destruct Iy as (x & <- & Ix).
+  apply existsb_exists. exists (F x). split; [apply in_map; apply H; exact Ix | apply R].
+Qed.
+
+Definition entries (s:state) (l:alist) : list (name * Z * list Z) :=
+  map (fun nf => (fst nf, fld_type s (snd nf), fld_data s (snd nf))) l.
+
+Lemma entries_keys s l : map (fun e => fst (fst e)) (entries s l) = d_keys l.
+Proof. unfold entries, d_keys. rewrite map_map. reflexivity. Qed.
+
+Theorem Inv_chk_reopen s i : Inv s -> chk_reopen_ds (live_view s i) (reopen_view s i) = true.
+Proof.
+  intros [IA IB]. destruct (IA i) as [a b c d].
+  unfold chk_reopen_ds, live_view, reopen_view, view_of.
+  assert (K1 : map fst (map (fun kg : name * Z => (fst kg, entries s (py_cols s (snd kg)))) (py_dfs s i)) = d_keys (py_dfs s i))
+    by (rewrite map_map; reflexivity).
+  assert (K2 : map fst (map (fun kg : name * Z => (fst kg, entries s (h5_grp s (snd kg)))) (h5_root s i)) = d_keys (h5_root s i))
+    by (rewrite map_map; reflexivity).
+  fold (entries s). unfold entries in K1, K2 |- *.
+  change (fun kg : name * Z => (fst kg, map (fun nf : name * Z => (fst nf, fld_type s (snd nf), fld_data s (snd nf))) (py_cols s (snd kg))))
+    with (fun kg : name * Z => (fst kg, entries s (py_cols s (snd kg)))) in *.
+  change (fun kg : name * Z => (fst kg, map (fun nf : name * Z => (fst nf, fld_type s (snd nf), fld_data s (snd nf))) (h5_grp s (snd kg))))
+    with (fun kg : name * Z => (fst kg, entries s (h5_grp s (snd kg)))) in *.
+  rewrite K1, K2.
+  rewrite (same_names_true _ _ a b (same_map_keys_incl _ _ c) (same_map_keys_incl _ _ (same_map_sym _ _ c))). cbn [andb].
+  assert (FR : forall k g, In (k, g) (py_dfs s i) ->
+            frame_eqb (k, entries s (py_cols s g)) (k, entries s (h5_grp s g)) = true /\
+            frame_eqb (k, entries s (h5_grp s g)) (k, entries s (py_cols s g)) = true).
+  { intros k g Ikg. pose proof (In_d_find _ _ _ a Ikg) as Fk.
+    pose proof (catalogued_linked _ _ _ _ IA Fk) as L. destruct (ib_df _ IB g L) as [a' b' c' d'].
+    unfold frame_eqb. cbn [fst snd]. rewrite name_eqb_refl, !entries_keys. cbn [andb].
+    rewrite (same_names_true _ _ a' b' (same_map_keys_incl _ _ c') (same_map_keys_incl _ _ (same_map_sym _ _ c'))).
+    rewrite (same_names_true _ _ b' a' (same_map_keys_incl _ _ (same_map_sym _ _ c')) (same_map_keys_incl _ _ c')). cbn [andb].
+    assert (I1 : incl (py_cols s g) (h5_grp s g)) by (intros [n x] I; eapply same_map_In; eassumption).
+    assert (I2 : incl (h5_grp s g) (py_cols s g)) by (intros [n x] I; eapply same_map_In; [apply same_map_sym; exact c' | exact b' | exact I]).
+    unfold entries. rewrite !(incl_by_map fld_eqb _ _ _ fld_eqb_refl) by assumption. auto. }
+  apply andb_true_iff. split.
+  - unfold incl_by. apply forallb_forall. intros x Ix. apply in_map_iff in Ix. destruct Ix as ([k g] & <- & Ikg). cbn [fst snd].
+    apply existsb_exists. exists (k, entries s (h5_grp s g)). split.
+    + apply in_map_iff. exists (k, g). split; [reflexivity | eapply same_map_In; eassumption].
+    + apply (FR k g Ikg).
+  - unfold incl_by. apply forallb_forall. intros x Ix. apply in_map_iff in Ix. destruct Ix as ([k g] & <- & Ikg). cbn [fst snd].
+    assert (Ikg' : In (k, g) (py_dfs s i)) by (eapply same_map_In; [apply same_map_sym; exact c | exact b | exact Ikg]).
+    apply existsb_exists. exists (k, entries s (py_cols s g)). split.
+    + apply in_map_iff. exists (k, g). split; [reflexivity | exact Ikg'].
+    + apply (FR k g Ikg').
+Qed.
